@@ -84,6 +84,39 @@ def flat_notes(acl):
     return [n for b in blocks(acl) for n in b]
 
 
+def sort_dup_check(ca, meta):
+    """ACLs with REPEATED lines and a previous numbering: n-1 distinct entries plus a copy of entry k at the end,
+    the copy carrying (from the earlier numbering) exactly the number that entry k receives now.  After
+    resequence(start, step) the numbers are start, start+step, ...; any permutation of the items sorts back."""
+    plat, hosts, k, start, step, sd = meta["platform"], meta["hosts"], meta["k_dup"], meta["start"], meta["step"], meta["seed"]
+    n = len(hosts) + 1
+    mk = lambda i, h: (ca.Remark(f"remark r{h}", platform=plat, note=i) if meta["remarks"] and h % 3 == 0
+                       else ca.Ace(f"permit ip host 10.0.{h}.1 any", platform=plat, note=i))
+    items = [mk(i, h) for i, h in enumerate(hosts)] + [mk(n - 1, hosts[k])]
+    acl = ca.Acl(name="A", platform=plat)
+    acl.items = items
+    if n == 2 * (k + 1) and step % 2 == 0:
+        acl.resequence(start - step // 2, step // 2) if start > step // 2 else acl.resequence(start, step)
+    else:
+        acl.resequence(1, 1)
+        acl.items[-1].sequence = start + step * k
+    last = acl.resequence(start, step)
+    seqs = [o.sequence for o in acl.items]
+    want = [start + step * i for i in range(n)]
+    if seqs != want or last != want[-1]:
+        return {"what": f"{[o.line for o in items]}: after resequence({start},{step}) the lines carry {seqs} and "
+                        f"{last} was returned, expected {want}"}
+    order = [o.note for o in acl.items]
+    r2 = random.Random(sd)
+    for _ in range(3):
+        r2.shuffle(acl.items)
+        acl.sort()
+        if [o.note for o in acl.items] != order:
+            return {"what": f"after resequence({start},{step}) and a shuffle, sort() gives entries "
+                            f"{[o.note for o in acl.items]}, numbered order is {order} ({[o.line for o in acl.items]})"}
+    return None
+
+
 def correspond(ctx):
     ca = core.impl_module()
     rnd = random.Random(ctx.seed)
@@ -156,6 +189,21 @@ def correspond(ctx):
         expr = "run_sort " + coq_list(f"({k}, {i})" for k, i in perm_keys)
         cases.append(Case(expr, list(range(len(perm_keys))) if same else ["not restored", blks], meta))
         nontrivial.add(repr((lines, how, sd)))
+    # repeated lines with a previous numbering (implementation histories)
+    n_dup = 0
+    for _ in range(120 if ctx.tier == "quick" else 2500):
+        hosts = rnd.sample(range(1, 200), rnd.randint(2, 7))
+        meta = {"k": "sort_dup", "platform": rnd.choice(["ios", "nxos"]), "prefix": "", "lines": [], "hosts": hosts,
+                "k_dup": rnd.randrange(len(hosts)), "start": rnd.choice([10, 10, 5, 100, 40]), "step": rnd.choice([10, 10, 20, 5, 1]),
+                "remarks": rnd.random() < 0.4, "seed": rnd.getrandbits(20)}
+        try:
+            f = sort_dup_check(ca, meta)
+        except Exception as ex:  # noqa
+            f = {"what": f"resequence/sort history raised {type(ex).__name__}: {ex}"}
+        n_dup += 1
+        if f:
+            raise core.ImplViolation(dict(kind="input", kernel="K-group", input=meta, failure=f))
+    ctx.coverage["repeated_line_histories"] = n_dup
     ctx.samples += [cases[0].meta, cases[len(cases) // 2].meta, cases[-1].meta]
     ctx.coverage["distinct_nontrivial"] = len(nontrivial)
     from collections import Counter
@@ -213,6 +261,11 @@ def regroup_history(ca, rnd, plat, prefix, lines, plan):
 def oracle(ctx, kernel, meta):
     ca = core.impl_module()
     lines, plat, prefix = meta["lines"], meta["platform"], meta["prefix"]
+    if meta.get("k") == "sort_dup":
+        try:
+            return sort_dup_check(ca, meta)
+        except Exception as ex:  # noqa
+            return {"what": f"resequence/sort history raised {type(ex).__name__}: {ex}"}
     if meta.get("k") == "regroup":
         return regroup_history(ca, random.Random(meta.get("seed", 0)), plat, prefix, lines, meta["plan"])
     try:
